@@ -1273,12 +1273,48 @@ func r10_11(c *Ctx, rule string) {
 	for _, call := range c.P.CallsTo(nf, "strings.ContainsAny", "strings.IndexAny") {
 		n++
 		set := ""
-		c.DerivesFrom(call.Common().Args[1], func(v ssa.Value) bool {
-			if s, ok := eng.ConstString(v); ok {
-				set += s
-			}
-			return false
-		}, 5)
+		var collect func(v ssa.Value, d int)
+		collect = func(v ssa.Value, d int) {
+			c.DerivesFrom(v, func(y ssa.Value) bool {
+				if s, ok := eng.ConstString(y); ok {
+					set += s
+				}
+				// what an initialiser function returns (`var chars = func() string { ... }()`)
+				if cl, isC := y.(*ssa.Call); isC && d < 2 {
+					if callee := cl.Call.StaticCallee(); callee != nil && len(callee.Blocks) > 0 && callee.Pkg != nil && callee.Pkg == nf.Pkg {
+						eng.InstrsShallow(callee, func(in ssa.Instruction) {
+							if r, isR := in.(*ssa.Return); isR && len(r.Results) == 1 {
+								collect(r.Results[0], d+1)
+							}
+						})
+					}
+				}
+				// a package-level variable (`var patternChars = ...`, completed
+				// in the package initialiser): everything that is stored in it
+				if u, isU := y.(*ssa.UnOp); isU && u.Op == token.MUL && d < 2 {
+					if g, isG := u.X.(*ssa.Global); isG {
+						for _, f := range c.P.AllModFuncs() {
+							eng.InstrsShallow(f, func(in ssa.Instruction) {
+								if st, isS := in.(*ssa.Store); isS && st.Addr == ssa.Value(g) {
+									collect(st.Val, d+1)
+								}
+							})
+						}
+						if g.Pkg != nil {
+							if ini := g.Pkg.Func("init"); ini != nil {
+								eng.InstrsShallow(ini, func(in ssa.Instruction) {
+									if st, isS := in.(*ssa.Store); isS && st.Addr == ssa.Value(g) {
+										collect(st.Val, d+1)
+									}
+								})
+							}
+						}
+					}
+				}
+				return false
+			}, 5)
+		}
+		collect(call.Common().Args[1], 0)
 		missing := ""
 		for _, ch := range "*?[" {
 			if !strings.ContainsRune(set, ch) {
